@@ -220,8 +220,9 @@ def chooseProd (g : Grammar) (dec : Decider) (key : Ty) (alts : List Ty) (ctx : 
       let target : Int := if mx = INF then (g.minTreeDepth : Int) * g.recursive.length else mx
       let ws : List Int := alts.map fun x =>
         if g.isRecTy x then target / ((ctx.depth : Int) + 1) else target - (g.distOf x : Int)
-      if ws.any (· < 0) then throwE (.foreign "negative-weight") else
-      let ns := ws.map Int.toNat
+      -- with no positive heuristic weight the production weights alone decide (all 1.0 here)
+      let ns : List Nat := if ws.any (· > 0) then ws.map Int.toNat else alts.map fun _ => 1
+      if ws.any (· > 0) && ws.any (· < 0) then throwE (.foreign "negative-weight") else
       let acc := accScaled 1 ns
       let total := acc.getLastD 0
       if total = 0 then do
